@@ -45,9 +45,16 @@ def main():
                 viol = first_sentence(v[0][5:], 150)
                 break
         rows.append("| %s | %s | %s | %s%s | %s |" % (sid, ", ".join(files), (m.get("summary") or change_summary(m["needs_to_manifest"])), caught, note, viol))
-    print("| seed | file | change / what it needs | caught by | reported as |")
-    print("|---|---|---|---|---|")
-    print("\n".join(rows))
+    table = "| seed | file | change (author's words) | caught by | reported as |\n|---|---|---|---|---|\n" + "\n".join(rows) + "\n"
+    if "--update-design" in sys.argv:
+        path = os.path.join(VERIF, "DESIGN.md")
+        text = open(path).read()
+        a, b = "<!-- seeded-table:begin -->\n", "<!-- seeded-table:end -->"
+        i, j = text.index(a) + len(a), text.index(b)
+        open(path, "w").write(text[:i] + table + text[j:])
+        print("DESIGN.md updated: %d seeds" % len(rows))
+    else:
+        print(table)
 
 
 if __name__ == "__main__":
